@@ -1,0 +1,58 @@
+//go:build verif
+
+// Instrumentation for the verification harness in /verif. Compiled only with
+// -tags verif; adds accessors, changes no behaviour.
+package psatoken
+
+import (
+	cose "github.com/veraison/go-cose"
+)
+
+// VerifNewSwComponents builds the library's component container around vals
+// without validating them (what decoding does).
+func VerifNewSwComponents(vals []*SwComponent) ISwComponents {
+	return &SwComponents[*SwComponent]{values: vals}
+}
+
+// VerifSwComponentsValues exposes the raw contents of the library's container.
+func VerifSwComponentsValues(c ISwComponents) (vals []*SwComponent, ok bool) {
+	sc, ok := c.(*SwComponents[*SwComponent])
+	if !ok || sc == nil {
+		return nil, false
+	}
+	return sc.values, true
+}
+
+// VerifWithScratchRegistry runs f with a private copy of the profile register
+// and restores the original afterwards.
+func VerifWithScratchRegistry(f func()) {
+	saved := profilesRegister
+	scratch := make(map[string]profileEntry, len(saved))
+	for k, v := range saved {
+		scratch[k] = v
+	}
+	profilesRegister = scratch
+	defer func() { profilesRegister = saved }()
+	f()
+}
+
+// VerifRegistryNames lists the names currently registered ("" is the default entry).
+func VerifRegistryNames() []string {
+	var out []string
+	for k := range profilesRegister {
+		out = append(out, k)
+	}
+	return out
+}
+
+// VerifRegistryEntry exposes one entry of the register.
+func VerifRegistryEntry(name string) (profile IProfile, jsonTag string, ok bool) {
+	e, ok := profilesRegister[name]
+	return e.Profile, e.JSONTag, ok
+}
+
+// VerifMessage exposes the envelope held by the Evidence.
+func (e *Evidence) VerifMessage() *cose.Sign1Message { return e.message }
+
+// VerifSetMessage replaces the envelope held by the Evidence.
+func (e *Evidence) VerifSetMessage(m *cose.Sign1Message) { e.message = m }
